@@ -30,7 +30,7 @@ def class_type(cls, T):
     lits = set(get_args(unannot(fi.annotation)))
     if T in lits:
         return T
-    for t in ("I", "A", "J"):
+    for t in ("I", "A", "J", "B"):
         if lits == {t}:
             return t
     return "?" + ",".join(sorted(lits))
